@@ -55,6 +55,10 @@ func (rn *runner) do(sc scenario, tie *lib.Tie) {
 	}
 	nontrivial := ncalls > 1 || len(res.coll) > 0
 	key := fmt.Sprintf("%s|%d|%v|%s|%v|%v|%v|%v|%d|%d|%s|%v", sc.RPC, len(sc.IDs), sc.Sizes, sc.Token, sc.Delete, sc.Mask, sc.Ops, sc.Warm, sc.Passes, sc.NInit, sc.Icpt, inflightKey(sc.Inflight))
+	if len(sc.Raw) > 0 {
+		key += fmt.Sprintf("|raw=%v", sc.Raw)
+		tie.Count(fmt.Sprintf("raw-initial-records:%d", len(sc.Raw)))
+	}
 	if sc.Icpt != "" {
 		key += "|" + strings.Join(sc.IDs, "\x00")
 		tie.Count("interceptor:" + sc.Icpt)
@@ -184,7 +188,7 @@ func main() {
 	res := lib.NewResult("C15", f)
 	rn := &runner{f: f}
 	rn.small = res.Tie("paging-small-exhaustive", "K2",
-		"every collection over the id pool {a,ab,b} (waste: 0..3 records), built through the creation API and as initial records, x page size {-2,-1,0,1,2,3} x starting token {empty, last key in {'',a,aa,ab,b,c}, undecodable text, undecodable bytes} (waste: {empty,0..4,-1,text,overflow}) on each of the seven RPCs, with and without a read mask hiding the key, chain followed to its end; plus every sequence of <= 2 store operations over the full alphabet (ids a, b, empty; generated ids; parent AddChild/AddChildTrait; Update* with create-if-absent, with update masks naming / leaving out the key field / without any path; publication updates with the id in the message, without it, and with a FOREIGN id; deletes with and without allow-missing; the trait servers' own Create/Update/Delete/AcknowledgePublication/Dispense RPCs) on a collection {a}, then two passes of one-item and default-size pages; plus every non-empty collection over 5 long / odd ids (35, 35, 304, 40 bytes; control, base64 and URL characters) through every creation route (initial records, creation API, create-if-absent updates, AddChild/AddChildTrait), one- and two-item pages from the start and from a token; plus models built with resource.WithIDInterceptor (ASCII lower / upper casing): every non-empty collection over {a, B, Ab} (storage-id order differs from spelling order) through the creation API and as (normalised) initial records x page size {1,2,0} x tokens for every spelling, and every sequence of <= 2 store ops over the spellings {a, B} on a collection {A}; plus a REFUSED write (Update* of an existing / absent id with and without create-if-absent, Delete*, waste AddWasteRecord) parked in its WithExpectedCheck callback during the unpaged listing and every List call of two passes; plus the same writes ACCEPTED (the callback parks, then returns nil): unpaged listing + one chain while the write is parked (judged against the contents BEFORE it), then the write completes and the listing + two passes are taken again (judged against the contents AFTER it); plus EVERY store op of the alphabet over {a, c} (update masks without paths included; the APIs without write options - parent AddChild/AddChildTrait/RemoveChildTrait, Create*, the servers' RPCs - too) parked at a yield point of the resource layer (gau.beforeLock / gau.afterRead / coll.delete.afterRead: after the verdict, before the write lock) on {a} and {a,b}, listed and paged while parked and again after it was let through; every construction step, op outcome, the listing (key fields in Collection.List order vs rlisting) and every List call compared with the Lean model; distinct = (rpc, |ids|, size, decoded token, key visible) / (rpc, op kind and options, outcome)")
+		"every collection over the id pool {a,ab,b} (waste: 0..3 records), built through the creation API and as initial records, x page size {-2,-1,0,1,2,3} x starting token {empty, last key in {'',a,aa,ab,b,c}, undecodable text, undecodable bytes} (waste: {empty,0..4,-1,text,overflow}) on each of the seven RPCs, with and without a read mask hiding the key, chain followed to its end; plus every sequence of <= 2 store operations over the full alphabet (ids a, b, empty; generated ids; parent AddChild/AddChildTrait; Update* with create-if-absent, with update masks naming / leaving out the key field / without any path; publication updates with the id in the message, without it, and with a FOREIGN id; deletes with and without allow-missing; the trait servers' own Create/Update/Delete/AcknowledgePublication/Dispense RPCs) on a collection {a}, then two passes of one-item pages (default-size pages too for every single op and a quarter of the pairs); plus every non-empty collection over 5 long / odd ids (35, 35, 304, 40 bytes; control, base64 and URL characters) through every creation route (initial records, creation API, create-if-absent updates, AddChild/AddChildTrait), one- and two-item pages from the start and from a token; plus records configured through the RAW option resource.WithInitialRecord(storage id, message) whose key field is not the storage id ({zz->ab}, {0->c}; with a lower-casing interceptor {ZZ->Ab}, {0->C}) next to every collection within {a,b}, x page size {1,2,0} x 5 tokens, and every single store op over {a, zz} on top; plus models built with resource.WithIDInterceptor (ASCII lower / upper casing): every non-empty collection over {a, B, Ab} (storage-id order differs from spelling order) through the creation API and as (normalised) initial records x page size {1,2,0} x tokens for every spelling, and every sequence of <= 2 store ops over the spellings {a, B} on a collection {A}; plus a REFUSED write (Update* of an existing / absent id with and without create-if-absent, Delete*, waste AddWasteRecord) parked in its WithExpectedCheck callback during the unpaged listing and every List call of two passes; plus the same writes ACCEPTED (the callback parks, then returns nil): unpaged listing + one chain while the write is parked (judged against the contents BEFORE it), then the write completes and the listing + two passes are taken again (judged against the contents AFTER it); plus EVERY store op of the alphabet over {a, c} (update masks without paths included; the APIs without write options - parent AddChild/AddChildTrait/RemoveChildTrait, Create*, the servers' RPCs - too) parked at a yield point of the resource layer (gau.beforeLock / gau.afterRead / coll.delete.afterRead: after the verdict, before the write lock) on {a} and {a,b}, listed and paged while parked and again after it was let through; every construction step, op outcome, the listing (key fields in Collection.List order vs rlisting) and every List call compared with the Lean model; distinct = (rpc, |ids|, size, decoded token, key visible) / (rpc, op kind and options, outcome)")
 	rn.small.Exhaustive = true
 	rn.tie = res.Tie("paging-scenarios", "K1",
 		"structured random paging scenarios from one PRNG: collection sizes 0-60/49,50,51/999-1001, page sizes {-5..0,1,2,3,7,50,1000,5000,random} fixed or varying per page, prefix-related and multi-byte ids, hostile tokens (bit flips, truncation, base64 of random bytes, tokens for deleted/absent keys, other oneof member, unknown fields, repeated field, other listers' tokens, URL/raw alphabets, embedded newlines, out-of-range indices), long ids (to ~600 bytes, shared long prefixes) and ids with control/base64/URL characters, each collection built through a random split of initial records and creation API, collections built by random histories of the models' creation/update/deletion APIs and the servers' CRUD RPCs (create-if-absent, update masks incl. non-nil masks without paths, foreign ids, allow-missing), 2-3 passes over one model, arbitrary warm-up List calls before the chain, half of these with a write in flight (refused throughout; or accepted / any store op parked at a yield point: one chain while it is parked, all passes after it completed); models with a case-mapping id interceptor and mixed-case ids (distinct under the interceptor), histories over re-spellings of them, tokens in other spellings; every op outcome, listing and List call compared with the Lean model; distinct = (rpc, |ids|, size, decoded token, key visible)")
@@ -219,6 +223,7 @@ func main() {
 	rn.smallIcpt()
 	rn.smallInflight()
 	rn.smallHooked()
+	rn.smallRaw()
 	rn.flush()
 	rn.rng = rng
 	rn.random(rng)
@@ -372,8 +377,11 @@ func (rn *runner) smallOps() {
 				seqs = append(seqs, []storeOp{o1, o2})
 			}
 		}
-		for _, ops := range seqs {
+		for k, ops := range seqs {
 			for _, s := range []int32{1, 0} {
+				if s == 0 && len(ops) == 2 && k%4 != 0 {
+					continue // default-size pages over <= 3 items are one page: every single op and a quarter of the pairs
+				}
 				rn.do(scenario{RPC: rp.Name, IDs: []string{"a"}, Ops: ops, Sizes: []int32{s}, Passes: 2, Class: "small-ops"}, rn.small)
 			}
 		}
@@ -563,6 +571,42 @@ func (rn *runner) smallHooked() {
 				// a first page meanwhile (warm-up call), then chains that START from a token
 				rn.do(scenario{RPC: rp.Name, IDs: ids, Sizes: []int32{1}, Token: encodeKeyToken("a"), Warm: []warmCall{{Size: 0}}, Passes: 2,
 					Inflight: &guardedWrite{Kind: "hooked", Op: &op, Point: hookPoint(op, i%3 == 1)}, Class: "small-inflight-hooked"}, rn.small)
+			}
+		}
+	}
+}
+
+// smallRaw: records configured through the raw option resource.WithInitialRecord(storage id, message) with a key
+// field that is NOT the storage id ({zz -> ab}, {0 -> c}: storage order and key order differ), next to every
+// collection within {a, b} built through the model's own routes; paged from the start and from tokens; then every
+// single store op over the ids {a, zz} (zz names the raw record: updates re-spell its key field, deletes remove
+// it); with and without a lower-casing interceptor (raw record {ZZ -> Ab}).
+func (rn *runner) smallRaw() {
+	for _, rp := range rpcs() {
+		if rp.Variant == "waste" {
+			continue
+		}
+		for _, icpt := range []string{"", "lower"} {
+			raws := [][]rawRec{{{"zz", "ab"}}, {{"0", "c"}}, {{"zz", "ab"}, {"0", "c"}}}
+			if icpt != "" {
+				raws = [][]rawRec{{{"ZZ", "Ab"}}, {{"ZZ", "Ab"}, {"0", "C"}}}
+			}
+			for _, raw := range raws {
+				for _, ids := range [][]string{{}, {"a"}, {"b"}, {"a", "b"}} {
+					for _, s := range []int32{1, 2, 0} {
+						for _, t := range []string{"", encodeKeyToken("a"), encodeKeyToken("ab"), encodeKeyToken("Ab"), encodeKeyToken("zz")} {
+							for _, ninit := range []int{0, len(ids)} {
+								rn.do(scenario{RPC: rp.Name, IDs: ids, NInit: ninit, Raw: raw, Sizes: []int32{s}, Token: t, Icpt: icpt, Class: "small-raw-initial"}, rn.small)
+								if len(ids) == 0 {
+									break
+								}
+							}
+						}
+					}
+				}
+				for _, op := range opAlphabet(rp, []string{"a", "zz"}, []string{"q"}) {
+					rn.do(scenario{RPC: rp.Name, IDs: []string{"a"}, Raw: raw, Ops: []storeOp{op}, Sizes: []int32{1}, Passes: 2, Icpt: icpt, Class: "small-raw-initial-ops"}, rn.small)
+				}
 			}
 		}
 	}
